@@ -1,6 +1,7 @@
 package kit
 
 import (
+	"os"
 	"crypto/sha256"
 	"encoding/hex"
 	"fmt"
@@ -23,6 +24,9 @@ type Violation struct {
 }
 
 func (v *Violation) Key() string { return v.Class + "|" + v.Signature }
+
+// eventsToStderr mirrors the event log to stderr (diagnosing runs that kill their worker process).
+var eventsToStderr = os.Getenv("VERIF_EVENTS_STDERR") != ""
 
 // RunCtx is handed to an engine for one simulated run.
 type RunCtx struct {
@@ -66,6 +70,9 @@ func (r *RunCtx) Event(format string, args ...any) {
 	r.seq++
 	s := fmt.Sprintf(format, args...)
 	fmt.Fprintf(r.log, "%d %s\n", r.seq, s)
+	if eventsToStderr {
+		fmt.Fprintf(os.Stderr, "EVENT %d %s\n", r.seq, s)
+	}
 	if len(r.head) < r.headMax {
 		r.head = append(r.head, s)
 	}
